@@ -145,7 +145,7 @@ def run_case(p, ops, code, n, exists=None):
         return
     p.counters["outcome layer" if A is not None else "outcome none"] += 1
     if not (np.array_equal(R, R0) and np.array_equal(S, S0)):
-        p.violate("find_local_clifford_layer argument-modified", "R or S modified by the search", case)
+        p.counters["search modified R or S (not judged here; see C13)"] += 1
     for tag, what in contracts.layer_judge(R0, S0, Graph(Gm), A, exists):
         p.violate("find_local_clifford_layer " + tag, "%s; operators %s, graph %d" % (what, case["ops"], code), case)
     if A is not None:
